@@ -5,11 +5,15 @@ package metadata
 // Contracts for the deductive checks in /verif (comment-only; no code).
 // Property C11: metadata encoding is canonical, round-trips, and is safe.
 
-//@ nonnil graphSyncFilecoinV1Prototype
+//@ nonnil graphSyncFilecoinV1Prototype ErrTooLong
 
 // protoID is Protocol.ID() of an interface value: the Code field for *Unknown,
 // a constant of the dynamic type for every other transport.
 //@ spec func typeID(tag int) int
+// typeID of the fixed transports (the definitions are checked: each ID method is proved to return
+// protoID of its receiver)
+//@ axiom tid_bitswap []: typeID(tagof("metadata.Bitswap")) == 2304
+//@ axiom tid_gateway []: typeID(tagof("metadata.IpfsGatewayHttp")) == 2336
 //@ spec func protoID(p val) int = ite(typeis(p, "*metadata.Unknown"), as(p, "*metadata.Unknown").Code, typeID(typetag(p)))
 //@ spec func allNonNil(m val) bool = forall(qi, 0, len(m.protocols), m.protocols[qi] != nil)
 
@@ -126,7 +130,6 @@ package metadata
 //@ func (*Unknown).ReadFrom
 //@   property C11
 //@   requires u != nil && r != nil
-//@   assumes ErrTooLong != nil
 //@   at make#1: allocbound cap <= MaxMetadataSize + 20
 //@   at call ReadUvarint#1: after assume 0 <= cr.readCount && cr.readCount <= 10
 //@   at call ReadUvarint#2: after assume 0 <= cr.readCount && cr.readCount <= 20
@@ -149,17 +152,31 @@ package metadata
 //@   requires u != nil
 //@   ensures result == u.Code
 
+// A fixed transport decodes only from exactly its canonical bytes (all of them: what was consumed is what
+// the value encodes to again), read from the reader in one call.
 //@ func (Bitswap).ReadFrom
 //@   property C11
 //@   requires r != nil
 //@   assumes constLens()
+//@   ghost rb := zero("[]byte")
+//@   at call Read: ghost rb := arg1
 //@   ensures result1 == nil ==> result0 == len(bitswapBytes)
+//@   ensures-local result1 == nil ==> count("call:Reader.Read") == 1
+//@   ensures result1 == nil ==> len(rb) == len(bitswapBytes)
+//@   ensures result1 == nil ==> content(rb) == content(bitswapBytes)
 
+// A fixed transport decodes only from exactly its canonical bytes (all of them: what was consumed is what
+// the value encodes to again), read from the reader in one call.
 //@ func (IpfsGatewayHttp).ReadFrom
 //@   property C11
 //@   requires r != nil
 //@   assumes constLens()
+//@   ghost rb := zero("[]byte")
+//@   at call Read: ghost rb := arg1
 //@   ensures result1 == nil ==> result0 == len(ipfsGatewayHttpBytes)
+//@   ensures-local result1 == nil ==> count("call:Reader.Read") == 1
+//@   ensures result1 == nil ==> len(rb) == len(ipfsGatewayHttpBytes)
+//@   ensures result1 == nil ==> content(rb) == content(ipfsGatewayHttpBytes)
 
 // Call protocol of the dag-cbor step: the decoder is handed the counting
 // reader itself (no read-ahead layer in between), so the count returned is the
@@ -201,3 +218,29 @@ package metadata
 //@ func protocolEqual
 //@   property C11
 //@   requires one != nil && other != nil
+
+// Fixed transports encode to exactly their canonical bytes and accept exactly those (C11: canonical, round trip).
+//@ func (Bitswap).MarshalBinary
+//@   property C11
+//@   pure
+//@   ensures result1 == nil && result0 == bitswapBytes
+//@ func (Bitswap).UnmarshalBinary
+//@   property C11
+//@   pure
+//@   ensures result == nil <==> content(data) == content(bitswapBytes)
+//@ func (IpfsGatewayHttp).MarshalBinary
+//@   property C11
+//@   pure
+//@   ensures result1 == nil && result0 == ipfsGatewayHttpBytes
+//@ func (IpfsGatewayHttp).UnmarshalBinary
+//@   property C11
+//@   pure
+//@   ensures result == nil <==> content(data) == content(ipfsGatewayHttpBytes)
+//@ func (Bitswap).ID
+//@   property C11
+//@   pure
+//@   ensures result == 2304
+//@ func (IpfsGatewayHttp).ID
+//@   property C11
+//@   pure
+//@   ensures result == 2336
